@@ -134,6 +134,34 @@ theorem C14_peek_is_execution_order {s : Sim} (h : Reachable s) (n : Nat) :
     have := List.mem_of_mem_take he
     simpa [Ev.live] using (List.mem_filter.mp this).2
 
+/-- Events scheduled up front run in sorted order: when no callable schedules or cancels anything, `run_until(T)`
+    executes exactly the live events with time `≤ T`, each at its own time, in the order of the (sorted) list — i.e. in
+    increasing (time, priority, order of scheduling) — skipping only events whose callable was collected. -/
+theorem C14_upfront_events_run_in_sorted_order {s s' : Sim} {f : Nat} {T : Int} (h : Reachable s) (hq : Quiet s)
+    (hr : runUntil f s T = some s') :
+    s'.log = s.log ++ (due T s.pending).filterMap logged ∧
+    (due T s.pending).Pairwise (fun a b => a.lt b = true) ∧
+    ∀ e ∈ s.pending, e.cancelled = false → e.time ≤ T → e ∈ due T s.pending := by
+  have hs := (reachable_inv h).1.sorted
+  refine ⟨runUntil_quiet_log hq hr, ?_, ?_⟩
+  · exact (hs.sublist List.filter_sublist).sublist (List.takeWhile_sublist _)
+  · intro e he hl ht
+    -- in a sorted list the live events due by T form a prefix of the live events
+    have hlive : e ∈ s.pending.filter Ev.live := List.mem_filter.mpr ⟨he, by simp [Ev.live, hl]⟩
+    have hsl : (s.pending.filter Ev.live).Pairwise (fun a b => a.lt b = true) := hs.sublist List.filter_sublist
+    unfold due
+    generalize s.pending.filter Ev.live = l at hlive hsl
+    induction l with
+    | nil => simp at hlive
+    | cons x xs ih =>
+      have hx := List.pairwise_cons.mp hsl
+      rcases List.mem_cons.mp hlive with rfl | hmem
+      · simp [ht]
+      · have hxe := Ev.time_le_of_lt (hx.1 e hmem)
+        have hxT : x.time ≤ T := Int.le_trans hxe ht
+        simp only [List.takeWhile_cons, hxT, decide_true, if_true, List.mem_cons]
+        exact Or.inr (ih hmem hx.2)
+
 /-- The priority levels the source defines (regenerated from `eventlist.py` on every run) are the three the model and
     the harness use, and they order events as documented: HIGH before DEFAULT before LOW. -/
 theorem C14_priority_order_generated :
